@@ -4,7 +4,6 @@
 # with different numbers of jobs (and once more in a second process with the same number) and the
 # digests over all per-run log hashes are compared. Exit 0 iff all digests agree.
 DIR=$(dirname "$(readlink -f "$0")")
-BIN=$DIR/target/sim/hqsim
 RUNS=${RUNS:-3000}
 PROPS=${PROPS:-"C01 C08 C10 C12 C15 C17 C18 C19 C20 C16 C04"}
 # (the binary is rebuilt from /repo's working tree first: the last build may have been made
@@ -12,11 +11,13 @@ PROPS=${PROPS:-"C01 C08 C10 C12 C15 C17 C18 C19 C20 C16 C04"}
 (cd "$DIR/hqsim" && CARGO_NET_OFFLINE=true CARGO_TARGET_DIR="$DIR/target" cargo build --profile sim --offline >"$DIR/.build.log" 2>&1) || { echo "build failed (see $DIR/.build.log)"; exit 2; }
 OUT=$(mktemp -d /tmp/hqsim-selftest.XXXXXX)
 cp "$DIR/known_findings.txt" "$OUT/"
+# private copy of the binary: checks of seeded changes rebuild $DIR/target/sim/hqsim in place
+cp "$DIR/target/sim/hqsim" "$OUT/hqsim"
 fail=0
 for p in $PROPS; do
   d=()
   for jobs in 16 5 16; do
-    line=$("$BIN" check --property "$p" --tier quick --runs "$RUNS" --jobs "$jobs" --verif-dir "$OUT" 2>/dev/null | grep "^$p:" | tail -1)
+    line=$("$OUT/hqsim" check --property "$p" --tier quick --runs "$RUNS" --jobs "$jobs" --verif-dir "$OUT" 2>/dev/null | grep "^$p:" | tail -1)
     dig=$(python3 - "$OUT/evidence/$p.json" <<'PY'
 import json,sys,hashlib
 e=json.load(open(sys.argv[1]))
